@@ -5,6 +5,8 @@
 //!   tzp.rule x<bytes> <0|1>      -> `err` | canonical rule dump
 //!   tzp.enc <ver> x<footer> <block> <block> -> x<bytes>   (the harness's writer vs Spec.encodeTzif)
 //!   tzp.render <rule fields…>    -> x<bytes>              (the harness's canonical renderer vs Spec.renderTz)
+//!   tzp.at  <dump> t1,t2,…       -> o<off>:<dst> | err | panic   (three-valued lookup by instant on an accepted zone)
+//!   tzp.loc <dump> ℓ1:y1,…       -> s<off> | a<o1>/<o2> | n | err | panic   (… by wall clock)
 //! Direct oracles (`c.fail`): no panic in the readers or in lookups on accepted zones; a file written
 //! by the writer below is accepted and dumps exactly what was written; a rendered rule parses to the
 //! rule that was rendered; every system TZif file is accepted and decodes to what an independent
@@ -12,7 +14,7 @@
 //! indices out of bounds, DST flag, footer framing, …) are rejected.
 use crate::ctx::*;
 use chrono::__verif_tz as vt;
-use chrono::{DateTime, NaiveDateTime};
+use chrono::{DateTime, Datelike, MappedLocalTime, NaiveDateTime};
 
 // ------------------------------------------------------------------------------------------ models
 #[derive(Clone, Debug)]
@@ -505,8 +507,38 @@ fn gen_block(c: &mut Ctx, ts: usize, forced_types: &[(i32, bool, Vec<u8>)], big:
 fn local_of(t: i64, off: i64) -> Option<NaiveDateTime> {
     DateTime::from_timestamp(t.checked_add(off)?, 0).map(|d| d.naive_utc())
 }
-/// the property's last sentence: an accepted zone answers every query without panicking
+/// offsets of the local time types in a canonical dump (`types=[off,dst,name;…]`)
+fn dump_offsets(d: &str) -> Vec<i64> {
+    let a = match d.find("types=[") {
+        Some(a) => a + 7,
+        None => return vec![],
+    };
+    let b = d[a..].find(']').map(|b| a + b).unwrap_or(a);
+    d[a..b].split(';').filter_map(|p| p.split(',').next().and_then(|t| t.parse().ok())).collect()
+}
+fn show_at(r: &Result<Result<(i32, bool), String>, ()>) -> String {
+    match r {
+        Ok(Ok((o, d))) => format!("o{}:{}", o, *d as u8),
+        Ok(Err(_)) => "err".to_string(),
+        Err(()) => "panic".to_string(),
+    }
+}
+fn show_loc(r: &Result<Result<MappedLocalTime<i32>, String>, ()>) -> String {
+    match r {
+        Ok(Ok(MappedLocalTime::Single(o))) => format!("s{}", o),
+        Ok(Ok(MappedLocalTime::Ambiguous(a, b))) => format!("a{}/{}", a, b),
+        Ok(Ok(MappedLocalTime::None)) => "n".to_string(),
+        Ok(Err(_)) => "err".to_string(),
+        Err(()) => "panic".to_string(),
+    }
+}
+/// the property's last sentence: an accepted zone answers every query without panicking.
+/// Direct oracle (a panic fails the property) AND correspondence: the three-valued lookup models
+/// (`tzp.at` / `tzp.loc`, proved never to panic on accepted zones and equal to C05's models) must give
+/// the same answer — value, `err` or `panic` — at the extremes of `i64` / `NaiveDateTime` and around
+/// every transition (all of them up to 24 (quick) / 200 (thorough) per zone, else the first and last 8 and a sample).
 fn probe(c: &mut Ctx, z: &vt::Zone, times: &[i64], label: &str, bytes: &[u8]) {
+    let dump = z.dump();
     let mut instants: Vec<i64> = vec![
         i64::MIN,
         i64::MIN + 1,
@@ -527,11 +559,15 @@ fn probe(c: &mut Ctx, z: &vt::Zone, times: &[i64], label: &str, bytes: &[u8]) {
         -8334601228800,
         8210266876799,
     ];
+    // the transitions to surround: all of them (thorough, or few), else first/last 8 and a sample
+    let cap = c.n(24, 200);
     let mut picks: Vec<i64> = vec![];
-    if !times.is_empty() {
-        picks.push(times[0]);
-        picks.push(times[times.len() - 1]);
-        for _ in 0..4 {
+    if times.len() <= cap {
+        picks.extend_from_slice(times);
+    } else {
+        picks.extend_from_slice(&times[..8]);
+        picks.extend_from_slice(&times[times.len() - 8..]);
+        for _ in 0..cap - 16 {
             picks.push(*c.rng.pick(times));
         }
     }
@@ -540,31 +576,74 @@ fn probe(c: &mut Ctx, z: &vt::Zone, times: &[i64], label: &str, bytes: &[u8]) {
             instants.push(t.saturating_add(d));
         }
     }
-    for t in instants {
-        match guard(|| z.offset_at(t)) {
-            Ok(Ok(_)) => c.count("lookup.instant:ok"),
-            Ok(Err(_)) => c.count("lookup.instant:err"),
-            Err(()) => {
-                c.count("lookup.instant:PANIC");
-                c.fail("offset lookup by instant panicked on an accepted zone", &format!("{} t={} file={}", label, t, hex(bytes)));
+    instants.sort_unstable();
+    instants.dedup();
+    for chunk in instants.chunks(1000) {
+        let res: Vec<_> = chunk.iter().map(|&t| guard(|| z.offset_at(t))).collect();
+        c.op(
+            &format!("tzp.at {} {}", dump, chunk.iter().map(|t| t.to_string()).collect::<Vec<_>>().join(",")),
+            &res.iter().map(show_at).collect::<Vec<_>>().join(","),
+        );
+        for (t, r) in chunk.iter().zip(&res) {
+            match r {
+                Ok(Ok(_)) => c.count("lookup.instant:ok"),
+                Ok(Err(_)) => c.count("lookup.instant:err"),
+                Err(()) => {
+                    c.count("lookup.instant:PANIC");
+                    c.fail("offset lookup by instant panicked on an accepted zone", &format!("{} t={} file={}", label, t, hex(bytes)));
+                }
             }
         }
     }
-    let mut locals: Vec<NaiveDateTime> = vec![NaiveDateTime::MIN, NaiveDateTime::MAX, DateTime::UNIX_EPOCH.naive_utc()];
+    let mut locals: Vec<NaiveDateTime> = vec![
+        NaiveDateTime::MIN,
+        NaiveDateTime::MAX,
+        DateTime::UNIX_EPOCH.naive_utc(),
+        NaiveDateTime::MIN + chrono::TimeDelta::seconds(1),
+        NaiveDateTime::MAX - chrono::TimeDelta::seconds(1),
+    ];
+    // wall-clock values at both ends of every window `transition + offset` (each type's offset), ±1 s
+    let mut offs = dump_offsets(&dump);
+    offs.sort_unstable();
+    offs.dedup();
+    if offs.len() > 4 {
+        let keep: Vec<i64> = (0..4).map(|_| *c.rng.pick(&offs)).collect();
+        offs = keep;
+    }
+    for o in [0i64, 93599] {
+        offs.push(o);
+    }
+    offs.sort_unstable();
+    offs.dedup();
     for t in &picks {
-        for off in [0i64, -1, 1, 3600, -3600, 7200, 86400, -86400, 93599] {
-            if let Some(l) = local_of(*t, off) {
-                locals.push(l);
+        for off in &offs {
+            for d in [-1i64, 0, 1] {
+                if let Some(l) = off.checked_add(d).and_then(|o| local_of(*t, o)) {
+                    locals.push(l);
+                }
             }
         }
     }
-    for l in locals {
-        match guard(|| z.offsets_for_local(l)) {
-            Ok(Ok(_)) => c.count("lookup.local:ok"),
-            Ok(Err(_)) => c.count("lookup.local:err"),
-            Err(()) => {
-                c.count("lookup.local:PANIC");
-                c.fail("offset lookup by wall clock panicked on an accepted zone", &format!("{} local={:?} file={}", label, l, hex(bytes)));
+    locals.sort_unstable();
+    locals.dedup();
+    for chunk in locals.chunks(1000) {
+        let res: Vec<_> = chunk.iter().map(|&l| guard(|| z.offsets_for_local(l))).collect();
+        c.op(
+            &format!(
+                "tzp.loc {} {}",
+                dump,
+                chunk.iter().map(|l| format!("{}:{}", l.and_utc().timestamp(), l.year())).collect::<Vec<_>>().join(",")
+            ),
+            &res.iter().map(show_loc).collect::<Vec<_>>().join(","),
+        );
+        for (l, r) in chunk.iter().zip(&res) {
+            match r {
+                Ok(Ok(_)) => c.count("lookup.local:ok"),
+                Ok(Err(_)) => c.count("lookup.local:err"),
+                Err(()) => {
+                    c.count("lookup.local:PANIC");
+                    c.fail("offset lookup by wall clock panicked on an accepted zone", &format!("{} local={:?} file={}", label, l, hex(bytes)));
+                }
             }
         }
     }
@@ -1109,6 +1188,27 @@ fn tz_string_stage(c: &mut Ctx) {
             let got = read_rule(c, &text2, e2, "tz.canonical");
             if got.as_deref() != Some(&want[..]) {
                 c.fail("the canonical text of a rule does not read back as that rule", &format!("text={:?} ext={} got={:?} want={}", String::from_utf8_lossy(&text2), e2, got, want));
+            }
+        }
+        // the zone `TZ=<text>` selects (`TimeZone::from_posix_tz`: no transitions, the rule's own types):
+        // both lookups answer everywhere, and as the three-valued models do
+        if i % 4 == 2 && !uses_ext(&r) {
+            if let Ok(Ok(z)) = guard(|| vt::from_env_tz(Some(std::str::from_utf8(&text).unwrap()))) {
+                let types = match want.strip_prefix("alt(std=(") {
+                    Some(rest) => {
+                        let a = rest.find("),dst=(").unwrap();
+                        let b = rest.find("),start=").unwrap();
+                        format!("{};{}", &rest[..a], &rest[a + 7..b])
+                    }
+                    None => want["fixed(".len()..want.len() - 1].to_string(),
+                };
+                if z.dump() == format!("types=[{}] trans=[] leaps=[] rule={}", types, want) {
+                    c.count("tz.zone:from-rule-text");
+                } else {
+                    c.count("tz.zone:other (a zoneinfo file of that name)");
+                }
+                let years: Vec<i64> = vec![-62135596800, -2208988800, 0, 1_000_000_000, 1_700_000_000 + (i as i64) * 86400 * 37, 4_102_444_800, 253_402_300_799];
+                probe(c, &z, &years, "tz.zone", &text);
             }
         }
         if uses_ext(&r) {
